@@ -71,9 +71,8 @@ Example::
 
 import functools
 import itertools
-import os.path
+import posixpath
 import urllib.parse
-import urllib.request
 import xml.dom
 
 from . import css, errorhandler, stylesheets
@@ -275,22 +274,38 @@ class Replacer:
     """
 
     def __init__(self, base):
+        self.href = base
         self.base = self.extract_base(base)
 
     def __call__(self, uri):
         scheme, location, path, query, fragment = urllib.parse.urlsplit(uri)
-        if scheme or location or path.startswith('/'):
-            # keep anything absolute
+        if scheme or not (location or path):
+            # keep anything absolute and references to the current document
             return uri
 
-        path, filename = os.path.split(path)
-        combined = os.path.normpath(os.path.join(self.base, path, filename))
-        return urllib.request.pathname2url(combined)
+        base_scheme, base_location, _, _, _ = urllib.parse.urlsplit(self.href)
+        if base_scheme or base_location:
+            # base is somewhere else, only the resolved reference means the same
+            return urllib.parse.urljoin(self.href, uri)
+
+        if location or path.startswith('/'):
+            # relative to the same server
+            return uri
+
+        combined = posixpath.normpath(posixpath.join(self.base, path))
+        if path.endswith(('/', '/.', '/..')) or path in ('.', '..'):
+            # a reference to a directory stays one
+            combined = combined.rstrip('/') + '/'
+        if ':' in combined.split('/', 1)[0]:
+            # a colon in the first segment would read as a scheme (RFC 3986, 4.2)
+            combined = './' + combined
+        # query and fragment are kept, the path is a URL already (no quoting)
+        return urllib.parse.urlunsplit(('', '', combined, query, fragment))
 
     @staticmethod
     def extract_base(uri):
         _, _, raw_path, _, _ = urllib.parse.urlsplit(uri)
-        base_path, _ = os.path.split(raw_path)
+        base_path, _ = posixpath.split(raw_path)
         return base_path
 
 
